@@ -253,6 +253,12 @@ class LogRng:
         self.count += 1
         return v
 
+    def random(self, size=None, *a, **k):
+        v = self.g.random(size, *a, **k)
+        self.log.append((0.0, 1.0, v))
+        self.count += 1
+        return v
+
     def __getattr__(self, name):
         if name.startswith("__") or name == "g":
             raise AttributeError(name)
